@@ -444,7 +444,8 @@ def fuzz_check(case):
         return o.violation("raises:%s@%s" % (type(e).__name__, where), "SVG.parse raised %s: %s\n  document: %s" % (type(e).__name__, str(e)[:100], text))
     shapes = [e for e in svg.elements() if isinstance(e, se.Rect) and e.id == "sentinel"] if svg is not None else []
     # (a fuzzed use may legitimately point at the sentinel and render a second instance of it, before the element itself)
-    referenced = text.count("#sentinel")
+    # (the reference is read leniently: whatever the first character of the href is, the rest names the target)
+    referenced = text.count("sentinel") - 1
     if len(shapes) < 1 or len(shapes) > 1 + referenced:
         return o.violation("sibling-missing:fuzz", "the sentinel after the faulty elements is rendered %d times\n  document: %s" % (len(shapes), text))
     s = shapes[-1]
